@@ -69,7 +69,8 @@ class Check:
         self.cells = {}        # cell -> dict(n, worst, wit)
         self.counts = {}
         self.samples = []
-        self.failures = {}     # key -> dict(n, first=case, what)
+        self.failures = {}
+        self.digests = {}     # key -> dict(n, first=case, what)
         self.harness_errors = []
         self.notes = []
         self.rule = ""
@@ -143,6 +144,8 @@ class Check:
                 self.add_fail(ev["key"], ev.get("what", ""), case)
                 if ev.get("n", 1) > 1:
                     self.failures[ev["key"]]["n"] += ev["n"] - 1
+            elif t == "digest":
+                self.digests[((origin or {}).get("cfg"), ev.get("w"), ev.get("i"))] = ev.get("h")
             elif t == "failmag":
                 f = self.failures.setdefault(ev["key"], dict(n=0, what="", first={}))
                 w = ev.get("worst")
